@@ -10,8 +10,10 @@
 //!   early  the request is issued <delay_us> after the main thread entered `Engine::run` (0 = strictly
 //!          before `run` is called, i.e. the request is pending when the evaluation starts);
 //!   none   no request (control: the program must finish by itself).
-//! The evaluation runs on the main thread.  After the request the watcher waits <bound_ms> for `run` to
-//! return.  If it does not, the watcher issues up to 40 FURTHER requests (one per ~1.3 ms) during a second
+//! The evaluation runs on the main thread.  The bound is counted in CPU time of that thread (read from
+//! /proc/self/task/<pid>/stat; the machine may be overloaded): after the request the watcher waits until the main
+//! thread has RUN for <bound_ms> without `run` returning (wall-clock cap 12 x <bound_ms>: `hang-parked` if the thread
+//! used < 30 ms of CPU in that time - it is parked or blocked -, `starved` otherwise).  If it does not, the watcher issues up to 40 FURTHER requests (one per ~1.3 ms) during a second
 //! period of <bound_ms>: a run that returns now had a poll but LOST the earlier request(s); a run that
 //! still does not return is stuck in a region without poll (or hangs for another reason) — the watcher
 //! prints the verdict and exits(3).
@@ -45,6 +47,26 @@ fn emit(line: &str) {
     let mut l = out.lock();
     let _ = writeln!(l, "{line}");
     let _ = l.flush();
+}
+
+/// CPU time (user + system, ms) consumed so far by the main thread of this process (= the evaluation thread).
+fn main_cpu_ms() -> u64 {
+    let pid = std::process::id();
+    let txt = match std::fs::read_to_string(format!("/proc/self/task/{pid}/stat")) {
+        Ok(t) => t,
+        Err(_) => return 0,
+    };
+    // fields after the `)` that closes the command name: state is field 3, utime 14, stime 15
+    let rest = match txt.rfind(')') {
+        Some(i) => &txt[i + 1..],
+        None => return 0,
+    };
+    let f: Vec<&str> = rest.split_whitespace().collect();
+    if f.len() < 13 {
+        return 0;
+    }
+    let ticks: u64 = f[11].parse::<u64>().unwrap_or(0) + f[12].parse::<u64>().unwrap_or(0);
+    ticks * 10 // USER_HZ = 100
 }
 
 fn clean(s: &str) -> String {
@@ -140,19 +162,42 @@ fn main() {
                     requests.fetch_add(1, Ordering::SeqCst);
                     requested_at.store(t0.elapsed().as_micros().max(1) as u64, Ordering::SeqCst);
                 }
-                // first waiting period
+                // The bound is counted in CPU TIME OF THE EVALUATION THREAD (the property bounds script steps, and the
+                // machine may be overloaded): period 1 ends when the main thread has run for `bound` since the request.
+                // `wall_max` protects against a thread that does not run at all.
+                let wall_max = bound * 12;
+                let cpu0 = main_cpu_ms();
                 let w = Instant::now();
-                while w.elapsed() < bound {
+                let mut verdict = "";
+                loop {
                     if done.load(Ordering::SeqCst) {
                         return;
                     }
-                    std::thread::sleep(Duration::from_micros(100));
+                    let cpu = main_cpu_ms().saturating_sub(cpu0);
+                    if cpu >= bound.as_millis() as u64 {
+                        break; // ran for the whole bound without returning: the request was lost (or there is no poll)
+                    }
+                    if w.elapsed() > wall_max {
+                        verdict = if cpu < 30 { "hang-parked" } else { "starved" };
+                        break;
+                    }
+                    std::thread::sleep(Duration::from_micros(200));
                 }
-                // further requests (one per ~1.3 ms, up to 40): distinguishes a LOST request (the loop polls,
-                // a later request gets through) from a region without poll (no request ever gets through)
+                if !verdict.is_empty() {
+                    emit(&format!(
+                        "case {id} outcome={verdict} latency_us=-1 marked={} requests={} probe=skipped cpu_ms={}",
+                        MARK.load(Ordering::SeqCst) as u8,
+                        requests.load(Ordering::SeqCst),
+                        main_cpu_ms().saturating_sub(cpu0)
+                    ));
+                    std::process::exit(3);
+                }
+                // period 2: further requests (one per ~1.3 ms of wall time, up to 40): distinguishes a LOST request (the
+                // loop polls, a later request gets through) from a region without poll (no request ever gets through)
+                let cpu1 = main_cpu_ms();
                 let w = Instant::now();
                 let mut k: u64 = 0;
-                while w.elapsed() < bound {
+                loop {
                     if done.load(Ordering::SeqCst) {
                         return;
                     }
@@ -161,10 +206,19 @@ fn main() {
                         requests.fetch_add(1, Ordering::SeqCst);
                         k += 1;
                     }
+                    let cpu = main_cpu_ms().saturating_sub(cpu1);
+                    if k >= 40 && cpu >= bound.as_millis() as u64 {
+                        break;
+                    }
+                    if w.elapsed() > wall_max {
+                        break;
+                    }
                     std::thread::sleep(Duration::from_micros(100));
                 }
+                let cpu = main_cpu_ms().saturating_sub(cpu1);
                 emit(&format!(
-                    "case {id} outcome=hang latency_us=-1 marked={} requests={} probe=skipped",
+                    "case {id} outcome={} latency_us=-1 marked={} requests={} probe=skipped cpu_ms={cpu}",
+                    if cpu < 30 { "hang-parked" } else { "hang" },
                     MARK.load(Ordering::SeqCst) as u8,
                     requests.load(Ordering::SeqCst)
                 ));
